@@ -118,3 +118,32 @@ func verifPause(point string) {
 		f(point)
 	}
 }
+
+// VerifItem is one stored item as a client sees it.
+type VerifItem struct {
+	Id       uuid.UUID
+	Vector   math.Vector
+	Metadata Metadata
+}
+
+// VerifContents lists the stored (live) items. Unlike VerifDump it is safe to call while the index
+// is being written: it reads every shard under that shard's lock and does not look at links.
+func (this *Hnsw) VerifContents() []VerifItem {
+	var out []VerifItem
+	for i := range this.vertices {
+		this.verticesMu[i].RLock()
+		for _, v := range this.vertices[i] {
+			if v.isDeleted() {
+				continue
+			}
+			md := make(Metadata, len(v.metadata))
+			for k, x := range v.metadata {
+				md[k] = x
+			}
+			out = append(out, VerifItem{Id: v.id, Vector: append(math.Vector{}, v.vector...), Metadata: md})
+		}
+		this.verticesMu[i].RUnlock()
+	}
+	sort.Slice(out, func(i, j int) bool { return compareIds(out[i].Id, out[j].Id) < 0 })
+	return out
+}
